@@ -130,6 +130,12 @@ func c16Gen(c *run.Ctx, r *run.Rng) *c16Graphic {
 			default:
 				add(rec.Op{K: rec.KSetCReg, Adj: adj, Col: ivg.RGBAColor(color.RGBA{uint8(r.Intn(128)), uint8(r.Intn(128)), 0x40, uint8(0x80 + r.Intn(128))})})
 			}
+			// A blend can also resolve to an old gradient value (t = 0 or 255 with a
+			// register operand that holds one): same role problem, same remedy.
+			if ref.IsGradientValue(vm.CReg[(int(sel)-int(adj))&63]) {
+				c.Count("stale_gradient_value_replaced", 1)
+				add(rec.Op{K: rec.KSetCReg, Adj: adj, Col: ivg.RGBAColor(color.RGBA{uint8(r.Intn(128)), uint8(r.Intn(128)), 0x40, uint8(0x80 + r.Intn(128))})})
+			}
 		}
 		add(rec.Op{K: rec.KStartPath, Adj: adj, F: [6]float32{coord(r), coord(r)}})
 		for n := r.Range(1, 12); n > 0; n-- {
